@@ -90,6 +90,9 @@ func runScenario(sc scenario) (msg string, nlines int, nwrites int) {
 		_ = os.WriteFile(d.outPath, []byte(strings.Join(previousRun(sc), "")), 0o644)
 		close(readerDone)
 	}
+	if noTrace && sc.Sessions <= 16 && sc.Shape != "sustained" {
+		d.extraArgs = []string{"-log-level", "debug"} // the small untraced scenarios also run every logging statement
+	}
 	if err := d.start(!noTrace); err != nil {
 		return "inconclusive: cannot start strace: " + err.Error(), 0, 0
 	}
@@ -109,7 +112,7 @@ func runScenario(sc scenario) (msg string, nlines int, nwrites int) {
 		sshdLines = append(sshdLines, fmt.Sprintf("%d Accepted password for user%d from 10.2.%d.%d port %d ssh2\n", pid, i, i/250, i%250+1, 30000+i))
 		ses := fmt.Sprint(100 + i)
 		auditLines = append(auditLines,
-			auditgen.Simple("LOGIN", 1700001000+int64(i), 80000+3*i, ses, fmt.Sprint(pid), "1").Recs[0].Line+"\n"+
+			strings.Replace(auditgen.Simple("LOGIN", 1700001000+int64(i), 80000+3*i, ses, fmt.Sprint(pid), "1").Recs[0].Line, "old-ses=4294967295", "old-ses="+fmt.Sprint(100+(i+n-1)%n), 1)+"\n"+
 				auditgen.Simple("USER_START", 1700001000+int64(i), 80001+3*i, ses, fmt.Sprint(pid), "success").Recs[0].Line+"\n"+
 				auditgen.Simple("CRED_DISP", 1700001000+int64(i), 80002+3*i, ses, fmt.Sprint(pid), "success").Recs[0].Line+"\n")
 	}
